@@ -1,0 +1,46 @@
+// Copyright 2020-2025 Buf Technologies, Inc.
+//
+// Licensed under the Apache License, Version 2.0 (the "License");
+// you may not use this file except in compliance with the License.
+// You may obtain a copy of the License at
+//
+//      http://www.apache.org/licenses/LICENSE-2.0
+//
+// Unless required by applicable law or agreed to in writing, software
+// distributed under the License is distributed on an "AS IS" BASIS,
+// WITHOUT WARRANTIES OR CONDITIONS OF ANY KIND, either express or implied.
+// See the License for the specific language governing permissions and
+// limitations under the License.
+
+//go:build verif
+
+package bufprotopluginexec
+
+import (
+	"sync/atomic"
+
+	"github.com/bufbuild/protoplugin"
+)
+
+type verifHandlerFunc func(pluginName string) protoplugin.Handler
+
+var verifHandlerFuncPointer atomic.Pointer[verifHandlerFunc]
+
+// SetVerifHandlerFunc installs a function that supplies in-process handlers for
+// plugin names in place of executables. Only compiled with the "verif" build tag.
+func SetVerifHandlerFunc(f func(pluginName string) protoplugin.Handler) {
+	if f == nil {
+		verifHandlerFuncPointer.Store(nil)
+		return
+	}
+	g := verifHandlerFunc(f)
+	verifHandlerFuncPointer.Store(&g)
+}
+
+// verifHandler returns the simulated handler for the plugin, if any.
+func verifHandler(pluginName string) protoplugin.Handler {
+	if f := verifHandlerFuncPointer.Load(); f != nil {
+		return (*f)(pluginName)
+	}
+	return nil
+}
